@@ -174,3 +174,15 @@ def t_oracle_substitution(world):
 _t_os = tasks
 def tasks(tier):
     return _t_os(tier) + [('oracle_substitution', t_oracle_substitution)]
+
+
+
+# ---------------------------------------------------------------- shared with C04.i: how the risk engine pairs positions with the bank / oracle accounts it is handed (a substituted or shifted account is rejected)
+def t_load_pairing_shared(world):
+    import specs.C04 as C04
+    return C04.t_load_pairing(world, 'C08.f')
+
+
+_t_lps = tasks
+def tasks(tier):
+    return _t_lps(tier) + [('load_pairing', t_load_pairing_shared)]
